@@ -291,8 +291,10 @@ theorem exact_aggs (L : LtLaws (fun v : V => isNaN v = false)) (hn : NanLaw V)
 of `DistributedExecutionOptimizer.Optimize` (`traverseBottomUp` with its early stops, tied to the
 real optimizer by the `distplan` oracle); `Sem.eval` gives `remote i e` the meaning "evaluate `e`
 over what engine `i` stores" and `coalesce` "the children's vectors one after the other". For
-every expression in `siteOk` (calls with at most one argument, or up to three with a literal
-among them - `clamp_min(x, 1)`, `histogram_quantile(0.9, x)` -, `timestamp` included: below it
+every expression in `siteOk` (calls with at most one argument, or up to three with a literal or
+a scalar-typed one among them - `clamp_min(x, 1)`, `clamp_max(x, scalar(y))`,
+`histogram_quantile(0.9, x)`: every well-typed call of the language, since a scalar-typed argument
+always stops the traversal (`scalar_stops`) -, `timestamp` included: below it
 a selector is walked through untouched, so it still reads the samples' own timestamps, per
 partition; distributive aggregations among sum/min/max/group/count), any number of remote engines with any partition of
 the series (the local storage being their union, as in the repository's tests), the duplicate
@@ -322,6 +324,16 @@ example :
     let h : VSel := { matchers := [⟨.eq, "__name__", "h_bucket"⟩], origOffset := 0, atTs := none }
     siteOk (.call "histogram_quantile" [.stepInv (.num (9 : Int)), .agg "sum" false ["le"] (.call "rate" [.msel h 300000])])
       = true := rfl
+
+/-- `clamp_max(m, scalar(n))` is in `siteOk`: the first argument is fetched remotely, which ends the
+loop over the arguments (the second stays a local selection - over the union, in this setting) -/
+example :
+    let m : Expr Int := .vsel { matchers := [⟨.eq, "__name__", "m"⟩], origOffset := 0, atTs := none }
+    let n : Expr Int := .vsel { matchers := [⟨.eq, "__name__", "n"⟩], origOffset := 0, atTs := none }
+    siteOk (.call "clamp_max" [m, .call "scalar" [n]]) = true ∧
+      optDistribute 2 (.call "clamp_max" [m, .call "scalar" [n]])
+        = some (.call "clamp_max" [.coalesce [.remote 0 m, .remote 1 m], .call "scalar" [n]]) := by
+  exact ⟨rfl, rfl⟩
 
 /-- `max(timestamp(m))` is in `siteOk`, and the selector below `timestamp` stays a selector inside
 every remote query -/
